@@ -1,7 +1,8 @@
 (* C07 — emitted code is well-formed on every path, executed or not.
    Only statements here; every proof is `exact <lemma>` into Verifier/VerifySound.v. *)
 From Coq Require Import List Arith Bool.
-From NV Require Import Gen.Opcodes Verifier.Shape Verifier.Effect Verifier.Verify Verifier.VerifySound.
+From Coq Require Import ZArith.
+From NV Require Import Gen.Opcodes Verifier.Shape Verifier.Effect Verifier.Verify Verifier.VerifySound Verifier.Refs.
 Import ListNotations.
 
 (* Soundness of the verifier: if the certificate check accepts a module then, along EVERY
@@ -33,3 +34,20 @@ Theorem verify_depth :
       end.
 Proof. exact VerifySound.verify_depth. Qed.
 Print Assumptions verify_depth.
+
+(* every constant / string / builtin / free-variable reference exists, every environment
+   vector has the size its function expects, no placeholder instruction remains *)
+Theorem references_exist : forall prog metas nstr nbuiltin,
+  check_refs prog metas nstr nbuiltin = true ->
+  forall a i, nth_error prog a = Some i ->
+    (r_op i <> BYTECODE_UNKNOWN /\ r_op i <> BYTECODE_ID_FUNC_FUNC /\ r_op i <> BYTECODE_END) /\
+    (r_op i = BYTECODE_STRING -> (0 <= r_w0 i < nstr)%Z) /\
+    (r_op i = BYTECODE_BUILD_IN -> (1 <= r_w0 i <= nbuiltin)%Z) /\
+    (r_op i = BYTECODE_ID_GLOBAL -> (0 <= r_w0 i < nfree_of metas (owner_upto metas a))%Z) /\
+    (r_op i = BYTECODE_ID_FUNC_ADDR ->
+       exists m, find_rmeta metas (Z.to_nat (r_w0 i)) = Some m /\
+         exists a' j, a = S a' /\ nth_error prog a' = Some j /\
+           ((r_op j = BYTECODE_GLOBAL_VEC /\ r_w0 j = rm_nfree m) \/
+            (r_op j = BYTECODE_COPYGLOB /\ Z.to_nat (r_w0 i) = owner_upto metas a))).
+Proof. exact Refs.check_refs_sound. Qed.
+Print Assumptions references_exist.
